@@ -75,6 +75,37 @@ pub struct Error<E1, E2> {
     pub location: Range<usize>,
 }
 
+/// Parses a variable value as an integer constant.
+///
+/// The value may be a decimal, octal (`0` prefix) or hexadecimal (`0x` or `0X`
+/// prefix) constant like in an arithmetic expression, optionally preceded by a
+/// sign.
+fn parse_integer_constant(value: &str) -> Option<i64> {
+    let (negative, unsigned) = match value.strip_prefix('-') {
+        Some(rest) => (true, rest),
+        None => (false, value.strip_prefix('+').unwrap_or(value)),
+    };
+    let (radix, digits) = if let Some(hex) = unsigned
+        .strip_prefix("0x")
+        .or_else(|| unsigned.strip_prefix("0X"))
+    {
+        (0x10, hex)
+    } else if unsigned.len() > 1 && unsigned.starts_with('0') {
+        (0o10, &unsigned[1..])
+    } else {
+        (10, unsigned)
+    };
+    if digits.is_empty() || !digits.chars().all(|c| c.is_digit(radix)) {
+        return None;
+    }
+    // Parse together with the sign so that the minimum value is accepted.
+    if negative {
+        i64::from_str_radix(&format!("-{digits}"), radix).ok()
+    } else {
+        i64::from_str_radix(digits, radix).ok()
+    }
+}
+
 /// Expands a variable to its value.
 fn expand_variable<E: Env>(
     name: &str,
@@ -83,10 +114,10 @@ fn expand_variable<E: Env>(
 ) -> Result<Value, Error<E::GetVariableError, E::AssignVariableError>> {
     match env.get_variable(name) {
         Ok(None) => Ok(Value::Integer(0)),
-        // TODO Parse non-decimal integer and float
-        Ok(Some(value)) => match value.parse() {
-            Ok(number) => Ok(Value::Integer(number)),
-            Err(_) => Err(Error {
+        // TODO Parse float
+        Ok(Some(value)) => match parse_integer_constant(value) {
+            Some(number) => Ok(Value::Integer(number)),
+            None => Err(Error {
                 cause: EvalError::InvalidVariableValue(value.to_string()),
                 location: location.clone(),
             }),
